@@ -6,27 +6,29 @@ from vf import universe as U
 from vf import universe_b  # noqa: F401  (registers group B zones)
 from vf import universe_c  # noqa: F401  (registers group C zones)
 from vf import universe_d  # noqa: F401  (registers group D zones)
+from vf import universe_e  # noqa: F401  (registers group E zones)
 from vf.prng import mix
 
 GROUP_B = ("Z5", "Z6", "Z7", "Z8")
 GROUP_C = ("Z9",)
 GROUP_D = ("Z10", "Z11", "Z12")
-GROUP_MODULES = {"B": universe_b, "C": universe_c, "D": universe_d}
+GROUP_E = ("Z13",)
+GROUP_MODULES = {"B": universe_b, "C": universe_c, "D": universe_d, "E": universe_e}
 FX_Z7 = 24000  # documents of Z7 whose fix runs are observed by the parser-level monitors
 
-QUICK = {"Z2": 24000, "Z3": 5000, "Z4": 5000, "Z5": 12000, "Z7": 4000, "Z8": 4000, "Z9": 6000, "Z10": 6000, "Z11": 4000, "Z12": 3000}
+QUICK = {"Z2": 24000, "Z3": 5000, "Z4": 5000, "Z5": 12000, "Z7": 4000, "Z8": 4000, "Z9": 6000, "Z10": 6000, "Z11": 4000, "Z12": 3000, "Z13": 2500}
 
 
-def plan_docs(tier, seed, complete=False, quick=None, zones=("Z1", "Z2", "Z3", "Z4", "Z5", "Z6", "Z7", "Z8", "Z9", "Z10", "Z11", "Z12"), z1_all=True, limit=None, check=None, force_b=False, ranges=None, fx=0):
+def plan_docs(tier, seed, complete=False, quick=None, zones=("Z1", "Z2", "Z3", "Z4", "Z5", "Z6", "Z7", "Z8", "Z9", "Z10", "Z11", "Z12", "Z13"), z1_all=True, limit=None, check=None, force_b=False, ranges=None, fx=0):
     quick = quick or QUICK
     items = []
     zinfo = {}
     for z in zones:
-        grp = "B" if z in GROUP_B else "C" if z in GROUP_C else "D" if z in GROUP_D else "A"
+        grp = "B" if z in GROUP_B else "C" if z in GROUP_C else "D" if z in GROUP_D else "E" if z in GROUP_E else "A"
         only = os.environ.get("VERIF_GROUP")
         if only and only != grp and not (force_b and not only):
             continue
-        if not force_b or grp in ("C", "D"):
+        if not force_b or grp in ("C", "D", "E"):
             if grp != "A" and not only and not group_active(check, grp):
                 continue
         n = U.size(z)
@@ -69,7 +71,7 @@ def group_active(check, grp):
 
 def only_group_b():
     """True while a later group's baseline is being built (the group A extras are then left out)."""
-    return os.environ.get("VERIF_GROUP") in ("B", "C", "D")
+    return os.environ.get("VERIF_GROUP") in ("B", "C", "D", "E")
 
 
 def item_doc(item):
